@@ -1,5 +1,8 @@
 import LitexModel.DriverLib
 import LitexModel.Generated.ClockRanges
+import LitexModel.Clock.Emit
+import LitexModel.Clock.EmitB
+import LitexModel.Generated.ClockRangesB
 /-
   Driver for C20 (pure `call`s, no machines).  Rationals travel as two decimal tokens `num den`.
 
@@ -14,6 +17,16 @@ import LitexModel.Generated.ClockRanges
     call gw1n <dev> <clkin> <vcoMargin> <k> {...}*k  -> "ok <idiv> <fdiv> <odiv> <sdiv> <psda> <k> {pin}*k" | rejected | assertion | crash
     call gwosc <osc> <f> <margin>                -> "none" | "some <div>"
     call clkdiv <a> <b> <s> <k>                  -> "<n> {<value>}*n"
+    call nxoscfin <hasHf> <f> <m> <f> <m> <lf>   -> "none" | "some <hfsdc div>"          (HF request, HFSDC request, LF flag)
+    call gatemate <clkin> <perf> <lj> <lr> <usr> <k> {<phase> <f>}*k -> "ok" | "assertion"
+    call gw5a <dev> <clkin> <vcoMargin> <k> {<f> <phase> <margin>}*k [<device>]
+        -> "ok <idiv> <fdiv> <mdiv> <k> {<odiv> <pe> <pe_fine>}*k" | "rejected" | "crash"
+    call trion <clkin> <fb> <k> {<f> <phase>}*k  -> "ok <N> <M> <O> <Cfbk> <k> {<C>}*k" | "assertion" | "crash" | "rejected"
+
+  Every accepted answer of a helper that emits a primitive is followed by " || " and the COMPLETE item list of the
+  emitted Instance (`…Emit`, LitexModel/Clock/Emit.lean) as `key=K:value` tokens (K: I int, F float num/den, N number,
+  S string, FS str(float), TR int(float), T port token, A any string).  Optional trailing request tokens select the
+  constructor options that only matter for the emission: ice40 `pad|core`, gw1n `<devicename> <device>`, gwosc `<device>`.
 -/
 open Litex Litex.Driver Litex.Clock
 
@@ -80,6 +93,26 @@ def sSQ (q : SQ) : String :=
 
 def join (l : List String) : String := " ".intercalate l
 
+def sFrac (q : SQ) : String := s!"{q.num}/{q.den}"
+
+def sPV : PV → String
+  | .int v => s!"I:{v}"
+  | .flt v => s!"F:{sFrac v}"
+  | .num v => s!"N:{sFrac v}"
+  | .str s => s!"S:{s}"
+  | .fstr v => s!"FS:{sFrac v}"
+  | .trunc v => s!"TR:{sFrac v}"
+  | .tok s => s!"T:{s}"
+  | .any => "A:"
+
+def sEmit (e : Emit) : String := " || " ++ join (e.map fun (k, v) => s!"{k}={sPV v}")
+
+/-- optional trailing token. -/
+def pOptTok : P (Option String) := do
+  match (← get) with
+  | [] => pure none
+  | w :: ws => set ws; pure (some w)
+
 def lookup {α : Type} (name : String) (l : List (String × α)) : Option α :=
   (l.find? (·.1 == name)).map (·.2)
 
@@ -98,7 +131,11 @@ def cXilinx : P String := do
     let per := (c.ds.zip fs).map fun (dv, f) => s!"{sQ dv} {sQ f}"
     let ps := xParams prim r c
     let pstr := ps.map fun (n, v) => s!"{n} {sSQ v}"
-    pure s!"some {c.divclk} {sQ c.mult} {sQ (c.vco r)} {c.ds.length} {join per} | {ps.length} {join pstr}"
+    let cls := (dev.splitOn ":").headD ""
+    let em := match xKindOf cls with
+      | some (k, of, usp) => sEmit (xEmit k of usp r c)
+      | none => ""
+    pure s!"some {c.divclk} {sQ c.mult} {sQ (c.vco r)} {c.ds.length} {join per} | {ps.length} {join pstr}{em}"
 
 def pEOut : P EOut := do
   let o ← pOut
@@ -116,17 +153,19 @@ def cEcp5 : P String := do
   | none => pure "none"
   | some c =>
     let ps := (eParams r c).map fun (dv, fp, cp) => s!"{dv} {fp} {cp}"
-    pure s!"some {c.clkiDiv} {c.clkfbDiv} {c.clkfb} {sQ (c.vco r)} {c.divs.length} {join ps}"
+    pure s!"some {c.clkiDiv} {c.clkfbDiv} {c.clkfb} {sQ (c.vco r)} {c.divs.length} {join ps}{sEmit (eEmit r c)}"
 
 def cIce40 : P String := do
   let clkin ← pQ
   let o ← pOut
+  let prim ← pOptTok
   pEnd
   match iSearch Gen.ice40 clkin o with
   | none => pure "none"
   | some c =>
     let fr : Int := match iFilterRange clkin c.divr with | some v => v | none => -1
-    pure s!"some {c.divr} {c.divf} {c.divq} {sQ (iVco clkin c.divr c.divf)} {fr}"
+    let em := match prim with | some p => sEmit (iEmit (p == "pad") clkin c) | none => ""
+    pure s!"some {c.divr} {c.divf} {c.divq} {sQ (iVco clkin c.divr c.divf)} {fr}{em}"
 
 def cNx : P String := do
   let clkin ← pQ
@@ -138,7 +177,7 @@ def cNx : P String := do
   | some c =>
     let (ref, divf, per) := nParams r c
     let ps := (c.divs.zip per).map fun (dv, (dx, del)) => s!"{dv} {dx} {del}"
-    pure s!"some {c.clkiDiv} {c.clkfbDiv} {sQ (c.vco r)} {ref} {divf} {c.divs.length} {join ps}"
+    pure s!"some {c.clkiDiv} {c.clkfbDiv} {sQ (c.vco r)} {ref} {divf} {c.divs.length} {join ps}{sEmit (nEmit r c)}"
 
 def cNxOsc : P String := do
   let f ← pQ
@@ -160,7 +199,7 @@ def cIntel : P String := do
   | none => pure "none"
   | some c =>
     let ps := (aParams r c).map fun (dv, _, ph) => s!"{sQ dv} {ph}"
-    pure s!"some {c.n} {c.m} {c.cs.length} {join ps}"
+    pure s!"some {c.n} {c.m} {c.cs.length} {join ps}{sEmit (aEmit d.nmax r c)}"
 
 def cGw1n : P String := do
   let dev ← tok
@@ -168,11 +207,16 @@ def cGw1n : P String := do
   let clkin ← pQ
   let vm ← pQ
   let outs ← pOuts
+  let devname ← pOptTok
+  let device ← pOptTok
   pEnd
   match gSearch d ⟨clkin, vm, outs⟩ with
   | .ok c =>
     let (a, b, e, f) := gParams c
-    pure s!"ok {c.idiv} {c.fdiv} {c.odiv} {c.sdiv} {c.psda} {c.pins.length} {join (c.pins.map toString)} | {a} {b} {e} {f}"
+    let em := match devname, device with
+      | some dn, some dv => sEmit (gEmit dn dv ⟨clkin, vm, outs⟩ c)
+      | _, _ => ""
+    pure s!"ok {c.idiv} {c.fdiv} {c.odiv} {c.sdiv} {c.psda} {c.pins.length} {join (c.pins.map toString)} | {a} {b} {e} {f}{em}"
   | .rejected => pure "rejected"
   | .assertion => pure "assertion"
   | .crash => pure "crash"
@@ -181,10 +225,71 @@ def cGwOsc : P String := do
   let osc ← pQ
   let f ← pQ
   let m ← pQ
+  let device ← pOptTok
   pEnd
   match gOscDiv Gen.gwoscLo Gen.gwoscHi osc ⟨f, SQ.zero, m⟩ with
   | none => pure "none"
-  | some dv => pure s!"some {dv}"
+  | some dv =>
+    let em := match device with | some dn => sEmit (gOscEmit dn dv) | none => ""
+    pure s!"some {dv}{em}"
+
+/-- NXOSCA.do_finalize: each placed divisor is computed from its OWN request. -/
+def cNxOscFin : P String := do
+  let hasHf ← pBool
+  let hf ← pQ
+  let hm ← pQ
+  let sf ← pQ
+  let sm ← pQ
+  let lf ← pBool
+  pEnd
+  let dv := fun (f m : Q) => nxOscDiv Gen.nxoscLo Gen.nxoscHi Gen.nxoscHf ⟨f, SQ.zero, m⟩
+  let hfd := if hasHf then dv hf hm else none
+  if hasHf ∧ hfd.isNone then pure "none" else
+  match dv sf sm with
+  | none => pure "none"
+  | some d => pure s!"some {d}{sEmit (nxOscEmit hfd (some d) lf)}"
+
+def cGatemate : P String := do
+  let clkin ← pQ
+  let perf ← tok
+  let lj ← pNat
+  let lr ← pNat
+  let usr ← pBool
+  let k ← pNat
+  let outs ← pMany (do let ph ← pNat; let f ← pQ; pure (ph, f)) k
+  pEnd
+  let r : MReq := ⟨clkin, perf, lj, lr, usr, outs⟩
+  if mLegal r then pure s!"ok{sEmit (mEmit r)}" else pure "assertion"
+
+def cGw5a : P String := do
+  let dev ← tok
+  let d ← (lookup dev Gen.gw5a : Option WDev)
+  let clkin ← pQ
+  let vm ← pQ
+  let outs ← pOuts
+  let device ← pOptTok
+  pEnd
+  let r : WReq := ⟨clkin, vm, outs⟩
+  match wSearch d r with
+  | .ok c =>
+    let per := c.outs.map fun w => s!"{w.odiv} {w.pe} {w.peFine}"
+    let em := match device with | some dv => sEmit (wEmit dv r c) | none => ""
+    pure s!"ok {c.idiv} {c.fdiv} {c.mdiv} {c.outs.length} {join per}{em}"
+  | .rejected => pure "rejected"
+  | .assertion => pure "assertion"
+  | .crash => pure "crash"
+
+def cTrion : P String := do
+  let clkin ← pQ
+  let fb ← pNat
+  let k ← pNat
+  let outs ← pMany (do let f ← pQ; let p ← pSQ; pure (⟨f, p⟩ : TOut)) k
+  pEnd
+  match tSearch Gen.trion ⟨clkin, outs, fb⟩ with
+  | .ok c => pure s!"ok {c.n} {c.m} {c.o} {c.cfb} {c.cs.length} {join (c.cs.map toString)}"
+  | .rejected => pure "rejected"
+  | .assertion => pure "assertion"
+  | .crash => pure "crash"
 
 def cClkdiv : P String := do
   let a ← pNat
@@ -209,6 +314,10 @@ def call (args : List String) : Option String :=
       | "gw1n" => some cGw1n
       | "gwosc" => some cGwOsc
       | "clkdiv" => some cClkdiv
+      | "nxoscfin" => some cNxOscFin
+      | "gatemate" => some cGatemate
+      | "gw5a" => some cGw5a
+      | "trion" => some cTrion
       | _ => none
     p.bind fun p => (p.run rest).map (·.1)
   | [] => none
